@@ -625,3 +625,47 @@ Qed.
 
 Lemma load_seq_app pre post : load_seq (pre ++ post) = (load_seq pre ++ load_seq post)%list.
 Proof. induction pre as [|[v n] pre IH]; simpl; [reflexivity|]. rewrite IH. reflexivity. Qed.
+
+(** ------------------------------------------------------------- decoys *)
+Lemma load_named_effective secs text ro syms name :
+  load_named secs text ro (filter (effective secs name) syms) name = load_named secs text ro syms name.
+Proof.
+  unfold load_named.
+  assert (Hf : find (has_name name) (filter (is_kernel_sym secs) (filter (effective secs name) syms)) =
+               find (has_name name) (filter (is_kernel_sym secs) syms)).
+  { rewrite !find_filter_and. apply find_ext. intros y. unfold effective.
+    destruct (is_kernel_sym secs y), (has_name name y); simpl; try reflexivity;
+      apply andb_false_r. }
+  rewrite Hf. clear Hf.
+  destruct (find (has_name name) (filter (is_kernel_sym secs) syms)); [|reflexivity]. unfold load_symbol.
+  assert (Hk : find_kd name (filter (effective secs name) syms) secs ro = find_kd name syms secs ro).
+  { unfold find_kd. destruct ro; [|reflexivity].
+    rewrite (find_filter_irrel (is_kd_sym name) (effective secs name)); [reflexivity|].
+    intros y H. unfold effective. rewrite H. rewrite orb_true_r. reflexivity. }
+  rewrite Hk. clear Hk. destruct (slice _ _ _); [|reflexivity].
+  destruct (find_kd name syms secs ro); try reflexivity.
+  unfold override. rewrite fold_left_filter_irrel; [reflexivity|].
+  intros m' y H. unfold effective in H.
+  apply orb_false_iff in H as [H Hv]. apply orb_false_iff in H as [H Hs].
+  unfold override_step. rewrite Hs, Hv. reflexivity.
+Qed.
+
+Lemma load_same_effective secs l1 l2 name :
+  name <> ""%string ->
+  filter (effective secs name) l1 = filter (effective secs name) l2 ->
+  load (mkView secs (Some l1)) name = load (mkView secs (Some l2)) name.
+Proof.
+  intros Hn H. rewrite !load_explicit by assumption.
+  destruct (find_section ".text" secs); [|reflexivity].
+  rewrite <- (load_named_effective _ _ _ l1), <- (load_named_effective _ _ _ l2), H. reflexivity.
+Qed.
+
+(** ------------------------------------------------- empty name, one kernel *)
+Lemma load_auto_single secs syms k :
+  filter (is_kernel_sym secs) syms = [k] ->
+  load (mkView secs (Some syms)) "" = load (mkView secs (Some syms)) (y_name k).
+Proof.
+  intros H. unfold load. cbn [v_secs v_syms]. destruct (find_section ".text" secs); [|reflexivity].
+  rewrite H. simpl String.eqb.
+  destruct (String.eqb_spec (y_name k) "") as [E|E]; [|reflexivity]. rewrite E. reflexivity.
+Qed.
